@@ -32,15 +32,16 @@ Prec(t) == IF t = "f32" THEN 24 ELSE 53
 
 (* ---- tolerances ------------------------------------------------------------------------------
    Bits of agreement required, per class and component type.  Calibrated on the pinned tree (C09_CALIB=1 ./check C09,
-   both tiers; worst case over model, structured hue, achromatic, near, identical and random pairs); every threshold
-   leaves at least 4 bits (16x) below the worst agreement observed:
+   both tiers: 540k events, 31k of them CIEDE2000; worst case over model, structured hue, achromatic, near, identical and
+   random pairs); every threshold leaves at least 4 bits (16x) below the worst agreement observed:
      algebraic closed forms relative to the result (dist2, dist, de, hyab): observed >= 51 (f64), 22 (f32)
      power laws (ide, ide00: powf of the libm):                              observed >= 50 (f64), 22 (f32)
-     CIEDE2000 against the Sharma reference, relative to the coordinates:     observed >= 50 (f64), 21 (f32)
-        (outside the one hue case in which palette deviates from the reference, see checks/c09.py)
+     CIEDE2000 against the Sharma reference, relative to the coordinates:     observed >= 49 (f64), 20 (f32)
+        in every hue case (before the fix of the mean hue, commit 8a05af4 of /repo, the case |dh'| > 180,
+        h'1 + h'2 >= 360 reached only 19 bits in f64)
      polar vs rectangular on converted colours, conversions:                  observed >= 50 (f64), 21 (f32)
      symmetry: every measure was bit-symmetric (200)
-     WCAG ratio relation:                                                   observed >= 52 (f64), 23 (f32) *)
+     WCAG ratio relation:                                                   observed >= 51 (f64), 23 (f32) *)
 Thr(class, t) ==
   CASE class = "algebraic" -> IF t = "f32" THEN 18 ELSE 46
     [] class = "power" -> IF t = "f32" THEN 17 ELSE 45
@@ -53,11 +54,11 @@ Band(t) == IF t = "f32" THEN QEps(11) ELSE QEps(40)
 (* the range clause 1 <= ratio <= 21 allows this many ulps above 21 (the quotient of two rounded sums) *)
 RangeUlps == 4
 
-(* a measured agreement passes its threshold (within 6 bits of it, it is also printed, for the evidence file);
+(* a measured agreement passes its threshold (within 4 bits of it, it is also printed, for the evidence file);
    in calibration mode it is printed and passes *)
 Pass(e, kind, bits, class) ==
   IF Calib THEN PrintT(<<"NOTE", e.m, e.ty, e.t, kind, bits, l>>)
-  ELSE IF bits >= Thr(class, e.t) + 6 THEN TRUE
+  ELSE IF bits >= Thr(class, e.t) + 4 THEN TRUE
   ELSE PrintT(<<"NOTE", e.m, e.ty, e.t, kind, bits, l>>) /\ bits >= Thr(class, e.t)
 
 (* domain in which the formulas are judged (the laws are judged everywhere): magnitudes up to 2^10, and
